@@ -175,6 +175,48 @@ theorem sendData_data (env : Env) (hw : WrapOK env.wrap) :
           simp [this, idealPackets, hnext, dedupAdj]
         · intro x hx; simp only [hj] at hx; exact hhead x (by simpa using hx)
 
+/-- a block loop that runs to completion never met the counter overflow: every block has its ideal
+packet (`overflowEndsWithError` does not apply to completed transfers) -/
+theorem sendData_completed_length (env : Env) :
+    ∀ (bl : List Bytes) (prev now : Nat) (s : List Ev),
+      (sendData env (bl.map some) prev now s).out = .completed →
+        (idealPackets env.wrap prev bl).length = bl.length := by
+  intro bl
+  induction bl with
+  | nil => intro prev now s _; simp [idealPackets]
+  | cons b bl ih =>
+    intro prev now s
+    simp only [List.map_cons]
+    unfold sendData
+    cases hnext : nextBlock env.wrap prev with
+    | none => simp
+    | some n =>
+      simp only
+      generalize sendWithRetry env (dataPacket n b) n (env.maxRetries + 1) now s = r
+      cases hout : r.out with
+      | acked =>
+        intro hc
+        have := ih n r.now r.rest (by simpa using hc)
+        simp [idealPackets, hnext, this]
+      | gaveUp => simp
+      | invalid => simp
+      | peerError => simp
+
+theorem processRequest_completed_length (env : Env) (oack : Opts) (bl : List Bytes) (script : List Ev)
+    (hc : (processRequest env oack (bl.map some) 0 script).out = .completed) :
+    (idealPackets env.wrap 0 bl).length = bl.length := by
+  unfold processRequest at hc
+  split at hc
+  · exact sendData_completed_length env bl 0 0 script hc
+  · generalize sendWithRetry env (oackPacket oack) 0 (env.maxRetries + 1) 0 script = r at hc
+    cases hout : r.out with
+    | acked =>
+      simp only [hout] at hc
+      exact sendData_completed_length env bl 0 r.now r.rest (by simpa using hc)
+    | gaveUp => simp [hout] at hc
+    | invalid => simp [hout] at hc
+    | peerError => simp [hout] at hc
+
 /-! ### the server's own ERROR packets (`serverErrorsJustified`) -/
 
 /-- no packet other than DATA/OACK goes to the client -/
